@@ -96,6 +96,24 @@ def worker_env():
     return dict(os.environ, PYTHONPATH=f"{VERIF}:{REPO}", PYTHONWARNINGS="ignore", TE_REPO=str(REPO))
 
 
+def describe_case(case):
+    """the recipe (concrete content: class, configuration, history, faulty call, continuation — every tensor with dtype and
+    shape) of a case whose worker died or hung before it could report it; generated in a fresh child WITHOUT running the fault.
+    None when the child cannot produce it."""
+    try:
+        p = subprocess.run(worker_cmd("--describe", json.dumps(case)), cwd=str(VERIF), env=worker_env(), capture_output=True, text=True, timeout=120)
+    except subprocess.TimeoutExpired:
+        return None
+    for line in p.stdout.split("\n"):
+        try:
+            x = json.loads(line)
+        except json.JSONDecodeError:
+            continue
+        if "described" in x:
+            return x.get("recipe")
+    return None
+
+
 def account(rep: Report, case, d):
     """input-distribution histogram of one finished case."""
     kind, fault = case[0], case[3]
@@ -158,7 +176,7 @@ def drive(rep: Report, seed: int, tier: str, deadline: float):
                 if inflight is not None and time.time() - last > CASE_TIMEOUT:
                     p.kill()
                     rep.violation(f"C14|{inflight[1]}|{inflight[3]}|hang", f"{inflight[1]} fault {inflight[3]}: no answer within {CASE_TIMEOUT}s",
-                                  {"case": inflight, "seed": seed, "tier": tier})
+                                  {"kind": "fault-case", "case": inflight, "recipe": describe_case(inflight), "seed": seed, "tier": tier})
                     break
                 continue
             line = p.stdout.readline()
@@ -184,8 +202,8 @@ def drive(rep: Report, seed: int, tier: str, deadline: float):
                 if d.get("harness_error"):
                     rep.notes.append(f"harness error in {case}: {d['harness_error']}"[:200])
                 for sig, what in judge(case, d):
-                    rep.violation(sig, what, {"case": case, "seed": seed, "tier": tier, "observed": {k: v for k, v in d.items() if k != "detail"},
-                                              "detail": d.get("detail", {})})
+                    rep.violation(sig, what, {"kind": "fault-case", "case": case, "recipe": d.get("detail"), "seed": seed, "tier": tier,
+                                              "observed": {k: v for k, v in d.items() if k != "detail"}})
             elif "finished" in d:
                 finished = True
         rc = p.wait()
@@ -194,7 +212,8 @@ def drive(rep: Report, seed: int, tier: str, deadline: float):
         if inflight is not None:
             if rc not in (0, -9):
                 rep.violation(f"C14|{inflight[1]}|{inflight[3]}|interpreter-crash",
-                              f"{inflight[1]} fault {inflight[3]}: worker process died with status {rc}", {"case": inflight, "exit_status": rc, "seed": seed, "tier": tier})
+                              f"{inflight[1]} fault {inflight[3]}: worker process died with status {rc}",
+                              {"kind": "fault-case", "case": inflight, "recipe": describe_case(inflight), "exit_status": rc, "seed": seed, "tier": tier})
             skip.append(cur); start = cur + 1
         else:
             if rc != 0:
@@ -223,7 +242,7 @@ def crash_probe(rep: Report):
     if rc not in (0, 1):
         rep.violation("C14|gaussian_frechet_distance|non-finite-covariance|interpreter-crash",
                       f"gaussian_frechet_distance with a NaN covariance (also FrechetAudioDistance.compute() with < 2 embeddings) kills the interpreter: exit status {rc}",
-                      {"code": code, "exit_status": rc})
+                      {"kind": "code", "code": code, "exit_status": rc})
 
 
 # the unguarded index sites of TE/Props/C14.lean (`unguardedSites`), each with a minimal concrete input:
@@ -265,9 +284,9 @@ def unguarded_demo(rep: Report):
             rep.notes.append(f"unguarded site — {title}: exit {p.returncode}: " + " | ".join(outp)[:400])
             rep.case(nontrivial_key=("unguarded-demo", title))
             if p.returncode not in (0, 1):
-                rep.violation(f"C14|{title.split(' ')[0]}|unguarded-index-site|interpreter-crash", f"{title}: exit status {p.returncode}", {"code": code, "exit_status": p.returncode})
+                rep.violation(f"C14|{title.split(' ')[0]}|unguarded-index-site|interpreter-crash", f"{title}: exit status {p.returncode}", {"kind": "code", "code": code, "exit_status": p.returncode})
         except subprocess.TimeoutExpired:
-            rep.violation(f"C14|{title.split(' ')[0]}|unguarded-index-site|hang", f"{title}: no answer within 120 s", {"code": code})
+            rep.violation(f"C14|{title.split(' ')[0]}|unguarded-index-site|hang", f"{title}: no answer within 120 s", {"kind": "code", "code": code})
 
 
 def run(rep: Report):
@@ -282,25 +301,19 @@ def search(rep: Report):
     drive(rep, rep.seed + 7, "thorough", time.time() + 120)
 
 
-def replay(payload) -> bool:
-    """True iff the property holds on the replayed input (the real code at TE_REPO)."""
-    if payload.get("kind") == "no-failing-input-found" or "replay" not in payload:
-        raise ValueError("nothing to replay: the payload names a proof obligation / correspondence stream that no longer checks, not a concrete input")
-    r = payload["replay"]
-    if "code" in r:
-        # native crash / hang probes: the recorded program is re-run in a child process
-        code = r["code"].replace(repr("/repo"), repr(str(REPO)))
-        return run_code(code) in (0, 1)
-    case = r.get("case")
-    if not case:
-        raise ValueError("nothing to replay: the payload carries no fault case")
+def _nothing(reason):
+    raise ValueError(f"nothing to replay: {reason}")
+
+
+def run_worker_once(args, what):
+    """one worker child for a single case: its `done` record, or False when it hangs / dies (the property fails)"""
     try:
-        p = subprocess.run(worker_cmd("--one", json.dumps(case)), cwd=str(VERIF), env=worker_env(), capture_output=True, text=True, timeout=CASE_TIMEOUT * 3)
+        p = subprocess.run(worker_cmd(*args), cwd=str(VERIF), env=worker_env(), capture_output=True, text=True, timeout=CASE_TIMEOUT * 3)
     except subprocess.TimeoutExpired:
-        print("replay: the case hangs")
+        print(f"replay: {what} hangs")
         return False
     if p.returncode != 0:
-        print(f"replay: the worker died with status {p.returncode}")
+        print(f"replay: the worker died with status {p.returncode} on {what}")
         return False
     d = None
     for line in p.stdout.split("\n"):
@@ -312,6 +325,53 @@ def replay(payload) -> bool:
             d = x
     if d is None or d.get("harness_error"):
         raise RuntimeError(f"replay: no result from the worker ({(d or {}).get('harness_error', p.stderr[-200:])})")
+    return d
+
+
+def replay(payload) -> bool:
+    """True iff the property holds on the replayed input (the real code at TE_REPO).
+    `kind: code`       -> the recorded program (native crash / hang probe) is re-run in a child process;
+    `kind: fault-case` -> the recorded RECIPE (class, configuration, history, faulty call, continuation — every tensor with dtype
+                          and shape) is run again in a worker child through `c14_worker.run_recipe`, the very observation of the
+                          sweep, and judged by `judge`; a child that hangs or dies fails the property.  Payloads without a
+                          recipe (recorded before it was part of the payload) are regenerated from their case seed."""
+    if not isinstance(payload, dict) or payload.get("kind", "failing-input") != "failing-input":
+        _nothing("the payload names a proof obligation / correspondence stream that no longer checks, not a concrete input")
+    r = payload.get("replay")
+    if not isinstance(r, dict) or not r:
+        _nothing("the payload carries no replay dict")
+    kind = r.get("kind") or ("code" if "code" in r else "fault-case" if "case" in r else None)
+    if kind == "code":
+        if not isinstance(r.get("code"), str):
+            _nothing("code payload without the program text")
+        # native crash / hang probes: the recorded program is re-run in a child process
+        code = r["code"].replace(repr("/repo"), repr(str(REPO)))
+        m = __import__("re").search(r"sys\.path\.insert\(0, ('[^']*')\)", code)
+        if m:
+            code = code.replace(m.group(1), repr(str(REPO)), 1)
+        return run_code(code) in (0, 1)
+    if kind != "fault-case":
+        _nothing(f"replay kind {kind!r} is neither a probe program nor a fault case")
+    case = r.get("case")
+    if not (isinstance(case, list) and len(case) == 5 and case[0] in ("cls", "fn", "icls", "ifn")):
+        _nothing("the payload carries no fault case [kind, class, config index, fault, seed]")
+    rc = r.get("recipe") if isinstance(r.get("recipe"), dict) else (r.get("detail") if isinstance(r.get("detail"), dict) and "mode" in r["detail"] else None)
+    if rc is not None:
+        if not all(k in rc for k in ("mode", "class", "cfg", "history", "faulty_call", "continuation")) or rc["faulty_call"] is None:
+            _nothing("the recorded recipe is incomplete")
+        import tempfile
+        with tempfile.NamedTemporaryFile("w", suffix=".json", prefix="c14_recipe_", delete=False) as f:
+            json.dump(rc, f)
+            path = f.name
+        try:
+            d = run_worker_once(("--recipe", path), f"the recorded {rc['class']} recipe")
+        finally:
+            os.unlink(path)
+    else:
+        print("replay: no recipe in the payload (old format): regenerating the case from its seed")
+        d = run_worker_once(("--one", json.dumps(case)), "the regenerated case")
+    if d is False:
+        return False
     found = judge(case, d)
     for sig, what in found:
         print(f"replay: {sig}: {what}")
